@@ -1,0 +1,21 @@
+//go:build verif
+
+package server
+
+import (
+	"github.com/andydunstall/piko/server/admin"
+	"github.com/andydunstall/piko/server/gossip"
+	"github.com/andydunstall/piko/server/proxy"
+	"github.com/andydunstall/piko/server/upstream"
+)
+
+// This file only exists under the 'verif' build tag. It exposes the
+// sub-servers of a node to an external verification harness.
+
+func (s *Server) VerifProxy() *proxy.Server { return s.proxyServer }
+
+func (s *Server) VerifUpstream() *upstream.Server { return s.upstreamServer }
+
+func (s *Server) VerifAdmin() *admin.Server { return s.adminServer }
+
+func (s *Server) VerifGossip() *gossip.Gossip { return s.gossiper }
